@@ -121,6 +121,9 @@ func parseMatcher(s string) (matcherSpec, bool) {
 		return matcherSpec{isDefault: true}, true
 	}
 	f := strings.Split(s, ":")
+	if len(f) == 3 && f[0] == "m" {
+		return parseGeneralMatcher(f[1], f[2])
+	}
 	if len(f) != 3 || f[0] != "c" {
 		return matcherSpec{}, false
 	}
@@ -151,6 +154,62 @@ func parseMatcher(s string) (matcherSpec, bool) {
 				return m, false
 			}
 			m.pats = append(m.pats, v)
+		}
+	}
+	return m, true
+}
+
+// parseGeneralMatcher: `m:<codes>:<entries>` — status codes may be negative, any header field.
+func parseGeneralMatcher(codes, entries string) (matcherSpec, bool) {
+	var m matcherSpec
+	switch codes {
+	case "*":
+	case "_":
+		m.codesSet = true
+	default:
+		m.codesSet = true
+		for _, c := range strings.Split(codes, ",") {
+			n, ok := parseNat(strings.TrimPrefix(c, "-"))
+			if !ok {
+				return m, false
+			}
+			if strings.HasPrefix(c, "-") {
+				n = -n
+			}
+			m.codes = append(m.codes, n)
+		}
+	}
+	m.hdrs = map[string][]string{}
+	if entries == "*" {
+		return m, true
+	}
+	for _, e := range strings.Split(entries, "&") {
+		kv := strings.Split(e, "=")
+		if len(kv) != 2 {
+			return m, false
+		}
+		k, err := core.UnHex(kv[0])
+		if err != nil || k == "" || !asciiOK(k) {
+			return m, false
+		}
+		if _, dup := m.hdrs[k]; dup {
+			return m, false
+		}
+		switch kv[1] {
+		case "!":
+			m.hdrs[k] = nil
+		case "_":
+			m.hdrs[k] = []string{}
+		default:
+			var vs []string
+			for _, p := range strings.Split(kv[1], "|") {
+				v, err := core.UnHex(p)
+				if err != nil || v == "" || !asciiOK(v) {
+					return m, false
+				}
+				vs = append(vs, v)
+			}
+			m.hdrs[k] = vs
 		}
 	}
 	return m, true
